@@ -96,6 +96,9 @@ func (w *World) Dial(ctx context.Context, network, host string) (net.Conn, error
 
 func (w *World) Now() time.Duration { return time.Since(w.start) }
 
+// StartTime is the (fake) wall-clock instant at which the world was created.
+func (w *World) StartTime() time.Time { return w.start }
+
 func (w *World) logf(f string, a ...any) {
 	if Gid() == w.driverGid {
 		w.Log.Logf("%d %s", w.Now().Microseconds(), fmt.Sprintf(f, a...))
